@@ -44,6 +44,10 @@ def select_fields(fields, resources=None, regex=True):
                     "Can't find any fields to select in resource %s" % resource['name']
 
                 resource['schema']['fields'] = new_fields
+                # a primary key that lost one of its fields is no key any more
+                pk = resource['schema'].get('primaryKey')
+                if pk and not set([pk] if isinstance(pk, str) else pk) <= configuration[resource['name']]:
+                    del resource['schema']['primaryKey']
         yield package.pkg
 
         for resource in package:
